@@ -388,6 +388,20 @@ template <class T> static void cubic_case (vp::Ctx& c, const char* tn, bool norm
             quad re = (quad) s.uniform (-4.0, 4.0) * sc;
             if (pat == 3) re = r * (quad) s.uniform (-1.5, 1.5); // spread q's sign/size
             quad im = qmax (qmax (qabs (r), qabs (re)), sc / 16) * (quad) (1 + s.unit ());
+            // the real root equal to the real part of the complex pair, on small integers: the depressed cubic's q is
+            // then EXACTLY zero in T while D > 0 (x^3 + x, x^3 - 3x^2 + 7x - 5, ...): the sign-of-q selection in the
+            // one-real-root branch must not degenerate there
+            bool qzero = s.chance (40);
+            if (qzero)
+            {
+                int ri  = (int) s.range (-4, 4);
+                int imi = (int) s.range (1, 6);
+                if (imi < (ri < 0 ? -ri : ri)) imi = (ri < 0 ? -ri : ri);
+                r    = (quad) ri;
+                re   = (quad) ri;
+                im   = (quad) imi;
+                lead = normalized ? (quad) 1 : (quad) s.range (1, 3) * (s.coin () ? 1 : -1);
+            }
             // (x - r)(x^2 - 2 re x + re^2 + im^2)
             quad b2 = -2 * re, c2 = re * re + im * im;
             A       = (T) lead;
